@@ -1119,22 +1119,22 @@ def trcopy_drift(scripts, traces):
     compared = bad = 0
     first = None
     for sc in scripts:
-        if 'trcopy' not in sc.get('tags', []):
+        if 'trcopy' not in sc.get('tags', []) and 'sortprim' not in sc.get('tags', []):
             continue
         tr = traces.get(sc['tid'])
         if not tr:
             continue
         evs = [e for e in tr[1][1:] if e['op'] != 'end']
         for o, e in zip(sc['ops'], evs):
-            if e['op'] != 'trcopy':
+            if e['op'] != o['op']:
                 break
             compared += 1
             ex = o['expect']
-            if list(e.get('sa_after', [])) != list(ex['sa_after']) or list(e.get('isa_after', [])) != list(ex['isa_after']):
+            if any(list(e.get(k, [])) != list(v) for k, v in ex.items()):
                 bad += 1
-                first = first or dict(tid=sc['tid'], s=o['s'], depth=o['depth'], partial=o['partial'], predicted=ex,
-                                      recorded=dict(sa_after=e.get('sa_after'), isa_after=e.get('isa_after')))
-    return dict(compared=compared, disagreements=bad, first=first, model='TrCopy.tla (trCopy, trPartialCopy)')
+                first = first or dict(tid=sc['tid'], op={k: v for k, v in o.items() if k != 'expect'}, predicted=ex,
+                                      recorded={k: e.get(k) for k in ex})
+    return dict(compared=compared, disagreements=bad, first=first, model='TrCopy.tla (trCopy, trPartialCopy), SortPrims.tla (trHeapSort, trInsertionSort)')
 
 
 def run_suffix(ctx, fam):
@@ -1153,6 +1153,9 @@ def run_suffix(ctx, fam):
             vlib.tlc_mc(ctx, 'TrCopy.tla', 'TrCopy_T.cfg', workers='16', timeout=2400)
         tops = vlib.tlc_enum(ctx, 'TrCopy.tla', 'TrCopy_genT.cfg' if t else 'TrCopy_gen.cfg', timeout=2400)
         scripts += chunk_suffix(tops, 'trcopy-enum', 300, ['tlc-enum', 'trcopy'])
+        log('[C09] sorting fall-backs of the rank sort (SortPrims.tla: transcribed trHeapSort / trInsertionSort on every small input)')
+        pops = vlib.tlc_enum(ctx, 'SortPrims.tla', 'SortPrims_genT.cfg' if t else 'SortPrims_gen.cfg', timeout=2400)
+        scripts += chunk_suffix(pops, 'sortprim-enum', 2000, ['tlc-enum', 'sortprim'])
         fam = dict(fam, _drift=trcopy_drift)
         log('[C09] LCP by the phi algorithm (LcpPhi.tla: the carried length is sound, the table is the definition)')
         vlib.tlc_mc(ctx, 'LcpPhi.tla', 'LcpPhi_T.cfg' if t else 'LcpPhi.cfg', workers='16', timeout=1500)
